@@ -64,7 +64,7 @@ func (fc *FnCtx) monitorAcquire(cc *ssa.CallCommon, st *State) {
 	}
 	fc.havoc(st, ts)
 	fc.note("lock acquisition on %s: fields %s havocked, object invariant assumed", key, strings.Join(fields, ", "))
-	if oi := fc.eng.cs.ObjInvs[typeName(pt.Elem())]; oi != nil {
+	if oi := fc.eng.cs.ObjInvs[stripTypeParams(typeName(pt.Elem()))]; oi != nil {
 		env := &Env{fc: fc, vars: map[string]Val{"this": obj}, cur: st, old: fc.root().old}
 		save := fc.pkg
 		if p := fc.eng.pkgs[oi.PkgPath]; p != nil {
